@@ -193,10 +193,9 @@ VARIABLES cs,       \* the case
           legout,   \* <<out of leg 0, out of leg 1>>
           legref,   \* ghost: <<input rows of leg 0, input rows of leg 1>>
           spl,      \* sizes of all spill runs written so far, as <<stage, size>>
-          taint,    \* names of the known-defect paths this behaviour went through
-          crash     \* the operator's goroutine dereferenced the nil maxSpillKey
+          taint     \* names of the known-defect paths this behaviour went through
 
-vars == <<cs, stage, inp, cur, inb, table, maxT, maxS, runs, spilled, lastP, out, legout, legref, spl, taint, crash>>
+vars == <<cs, stage, inp, cur, inb, table, maxT, maxS, runs, spilled, lastP, out, legout, legref, spl, taint>>
 
 Dir  == DirOf(cs)
 Desc == DescOf(cs)
@@ -214,7 +213,7 @@ Init ==
   /\ stage = "build"
   /\ FreshAgg(<< >>)
   /\ legout = << << >>, << >> >> /\ legref = << << >>, << >> >>
-  /\ spl = << >> /\ taint = {} /\ crash = FALSE
+  /\ spl = << >> /\ taint = {}
 
 \* build the case: append one input row (keeping a pool-ordered input ordered
 \* on the primary key) and decide whether it starts a new batch
@@ -227,7 +226,7 @@ AddRow ==
        /\ ~Sorted(cs.src) /\ cs.keys # << >> => ~nb          \* batch boundaries matter for sorted input only
        /\ cs' = [cs EXCEPT !.keys = Append(@, k),
                            !.bat = IF nb THEN Append(@, 1) ELSE [@ EXCEPT ![Len(@)] = @ + 1]]
-  /\ UNCHANGED <<stage, inp, cur, inb, table, maxT, maxS, runs, spilled, lastP, out, legout, legref, spl, taint, crash>>
+  /\ UNCHANGED <<stage, inp, cur, inb, table, maxT, maxS, runs, spilled, lastP, out, legout, legref, spl, taint>>
 
 Start ==
   /\ stage = "build" /\ cs.keys # << >>
@@ -237,7 +236,7 @@ Start ==
   \* known defect: `sort -r k` delivers nulls last, but for a descending input
   \* valueCompare / keysComparator (nulls max, operands swapped) expect them first
   /\ taint' = IF cs.src = "sortdesc" /\ ~LakeSorted(DirectInput(cs)[1], TRUE) THEN {"descnulls"} ELSE {}
-  /\ UNCHANGED <<cs, cur, inb, table, maxT, maxS, runs, spilled, lastP, out, legout, spl, crash>>
+  /\ UNCHANGED <<cs, cur, inb, table, maxT, maxS, runs, spilled, lastP, out, legout, spl>>
 
 \* ------------------------------------------------------------- spilling
 RECURSIVE InsK(_, _, _)
@@ -285,13 +284,13 @@ NextGroup(rs, desc) ==
 \* primary key is an error or is below maxSpillKey).
 RECURSIVE ReadSpills(_, _, _, _)
 ReadSpills(rs, ms, desc, eof) ==
-  IF NonEmptyRuns(rs) = {} THEN [em |-> {}, rs |-> rs, crash |-> FALSE]
+  IF NonEmptyRuns(rs) = {} THEN [em |-> {}, rs |-> rs]
   ELSE LET p == rs[MinRun(rs, desc)][1].key[1] IN
-    IF ~eof /\ ~IsErr(p) /\ ms = NONE THEN [em |-> {}, rs |-> rs, crash |-> TRUE]     \* *a.maxSpillKey with maxSpillKey = nil
-    ELSE IF ~eof /\ ~IsErr(p) /\ VCmp(p, ms, desc) >= 0 THEN [em |-> {}, rs |-> rs, crash |-> FALSE]
+    IF ~eof /\ ms = NONE THEN [em |-> {}, rs |-> rs]                                \* `if a.maxSpillKey == nil { break }` (fix c97cabc9b)
+    ELSE IF ~eof /\ ~IsErr(p) /\ VCmp(p, ms, desc) >= 0 THEN [em |-> {}, rs |-> rs]
     ELSE LET g == NextGroup(rs, desc)
              r == ReadSpills(g.rest, ms, desc, eof)
-         IN [em |-> {g.row} \cup r.em, rs |-> r.rs, crash |-> r.crash]
+         IN [em |-> {g.row} \cup r.em, rs |-> r.rs]
 
 \* ghost: a release of key p before the end of input is justified by the
 \* declared order iff the input has already moved strictly past p's position
@@ -304,13 +303,13 @@ TaintOfRelease(em) == IF \E r \in em : \E k \in r.ids : ~Justified(k[1]) THEN {"
 \* ---------------------------------------------------------------- actions
 \* Op.run: pull the next batch
 Pull ==
-  /\ stage \notin {"build", "done"} /\ ~crash /\ ~inb /\ inp # << >>
+  /\ stage \notin {"build", "done"} /\ ~inb /\ inp # << >>
   /\ cur' = Head(inp) /\ inp' = Tail(inp) /\ inb' = TRUE
-  /\ UNCHANGED <<cs, stage, table, maxT, maxS, runs, spilled, lastP, out, legout, legref, spl, taint, crash>>
+  /\ UNCHANGED <<cs, stage, table, maxT, maxS, runs, spilled, lastP, out, legout, legref, spl, taint>>
 
 \* Aggregator.Consume for one value of the batch
 Consume ==
-  /\ stage \notin {"build", "done"} /\ ~crash /\ inb /\ cur # << >>
+  /\ stage \notin {"build", "done"} /\ inb /\ cur # << >>
   /\ LET row == Head(cur)
          k == row.key
          mt == IF Dir = 0 THEN maxT                                             \* updateMaxTableKey
@@ -330,25 +329,24 @@ Consume ==
            ELSE
                /\ table' = table \cup {[key |-> k, gv |-> mt, vals |-> row.vals]}
                /\ UNCHANGED <<runs, maxS, spilled, spl>>
-  /\ UNCHANGED <<cs, stage, inp, inb, out, legout, legref, taint, crash>>
+  /\ UNCHANGED <<cs, stage, inp, inb, out, legout, legref, taint>>
 
 \* Op.run after a batch: `for { res := nextResult(false) ... }` (sorted input only)
 EndBatch ==
-  /\ stage \notin {"build", "done"} /\ ~crash /\ inb /\ cur = << >>
+  /\ stage \notin {"build", "done"} /\ inb /\ cur = << >>
   /\ inb' = FALSE
-  /\ IF Dir = 0 THEN UNCHANGED <<table, runs, out, taint, crash>>
+  /\ IF Dir = 0 THEN UNCHANGED <<table, runs, out, taint>>
      ELSE IF ~spilled THEN                                                       \* readTable(flush = false)
           LET rel == {r \in table : VCmp(r.gv, maxT, Desc) < 0}
               em  == {[rep |-> r.key, ids |-> {r.key}, vals |-> r.vals] : r \in rel}
           IN /\ table' = table \ rel
              /\ out' = IF em = {} THEN out ELSE Append(out, em)
              /\ taint' = taint \cup TaintOfRelease(em)
-             /\ UNCHANGED <<runs, crash>>
+             /\ UNCHANGED runs
      ELSE LET r == ReadSpills(runs, maxS, Desc, FALSE) IN                         \* readSpills(eof = false)
           /\ runs' = r.rs
-          /\ crash' = r.crash
-          /\ out' = IF r.em = {} \/ r.crash THEN out ELSE Append(out, r.em)
-          /\ taint' = taint \cup TaintOfRows(r.em) \cup TaintOfRelease(r.em) \cup (IF r.crash THEN {"nilmaxspill"} ELSE {})
+          /\ out' = IF r.em = {} THEN out ELSE Append(out, r.em)
+          /\ taint' = taint \cup TaintOfRows(r.em) \cup TaintOfRelease(r.em)
           /\ UNCHANGED table
   /\ UNCHANGED <<cs, stage, inp, cur, maxT, maxS, spilled, lastP, legout, legref, spl>>
 
@@ -364,8 +362,7 @@ NextStage(o) ==
 
 \* end of input: sendResults -> nextResult(true) until nil
 Finish ==
-  /\ stage \notin {"build", "done"} /\ ~inb /\ inp = << >> /\ ~crash
-  /\ crash' = FALSE
+  /\ stage \notin {"build", "done"} /\ ~inb /\ inp = << >>
   /\ IF ~spilled THEN                                                            \* readTable(flush = true)
         LET em == {[rep |-> r.key, ids |-> {r.key}, vals |-> r.vals] : r \in table}
             o  == IF em = {} THEN out ELSE Append(out, em)
@@ -384,16 +381,11 @@ Finish ==
            /\ NextStage(o)
   /\ UNCHANGED <<cs, legref>>
 
-Crashed ==
-  /\ stage \notin {"build", "done"} /\ crash
-  /\ stage' = "done"
-  /\ UNCHANGED <<cs, inp, cur, inb, table, maxT, maxS, runs, spilled, lastP, out, legout, legref, spl, taint, crash>>
-
 \* ------------------------------------------------------------ export
 Summary == [src |-> cs.src, mode |-> cs.mode, limit |-> cs.limit, keys |-> cs.keys, bat |-> cs.bat, b2 |-> cs.b2,
-            out |-> out', legs |-> legout', spills |-> spl', taint |-> taint', crash |-> crash']
+            out |-> out', legs |-> legout', spills |-> spl', taint |-> taint']
 
-Step == AddRow \/ Start \/ Pull \/ Consume \/ EndBatch \/ Finish \/ Crashed
+Step == AddRow \/ Start \/ Pull \/ Consume \/ EndBatch \/ Finish
 Next == /\ Step
         /\ (Emit /\ stage' = "done") => PrintT(ToJson(Summary))
 
@@ -434,12 +426,12 @@ Final ==
   (stage = "done" /\ taint = {}) => {r.rep : r \in Emitted} = KeysIn(RowsOf(cs))
 
 \* the taints are exactly the known defect classes: nothing else may break
-TaintsKnown == taint \subseteq {"merge", "release", "nilmaxspill", "descnulls"}
+TaintsKnown == taint \subseteq {"merge", "release", "descnulls"}
 \* "merge" needs two distinct keys that the comparator deems equal;
-\* "release"/"nilmaxspill" need a missing key next to a null key or a spill.
+\* "release" needs a missing key next to a null key (or the descnulls path).
 TaintJustified ==
   /\ "merge" \in taint => \E i, j \in 1..Len(cs.keys) : cs.keys[i] # cs.keys[j] /\ KCmp(cs.keys[i], cs.keys[j], FALSE) = 0
-  /\ (taint \cap {"release", "nilmaxspill"}) # {} => "descnulls" \in taint \/ \E i \in 1..Len(cs.keys) : cs.keys[i][1] = "MISS"
+  /\ "release" \in taint => "descnulls" \in taint \/ \E i \in 1..Len(cs.keys) : cs.keys[i][1] = "MISS"
   /\ "descnulls" \in taint => /\ cs.src = "sortdesc"
                               /\ \E i, j \in 1..Len(cs.keys) : SRank(cs.keys[i][1]) = 6 /\ SRank(cs.keys[j][1]) # 6
 =============================================================================
